@@ -443,8 +443,9 @@ def rt_cfg(mode, quick, emit, inv="TableOK RouteOK"):
         dom = ('Methods = {"GET","POST","PUT"} Transports = {"polling","websocket","webtransport","bogus","absent","repeated"}\n'
                ' Sids = {"absent","unknown","known-same","known-other","closed"} Eios = {"4","3","absent","garbage"} Origins = {"ok","ctl"}\n'
                ' Upgrades = {TRUE, FALSE} Hooks = {"none","allow","deny"} Mws = {"none","ok","fail"} Enabled = {"pw","p","w"} Eio3s = {TRUE, FALSE}\n')
-    return ("SPECIFICATION Spec\nCONSTANTS Attach = %s\n Shapes = %s\n %s Mode = \"%s\" Emit = %s\nINVARIANTS %s\n"
-            % (RT_ATTACH, RT_SHAPES, dom, mode, emit, inv))
+    rm = '{"GET","POST","CONNECT"}' if quick else '{"GET","POST","CONNECT","OPTIONS","DELETE","HEAD"}'
+    return ("SPECIFICATION Spec\nCONSTANTS Attach = %s\n Shapes = %s\n RouteMethods = %s\n %s Mode = \"%s\" Emit = %s\nINVARIANTS %s\n"
+            % (RT_ATTACH, RT_SHAPES, rm, dom, mode, emit, inv))
 
 
 def tlc_cells(ctx, module, cfgtext, name, marker="CELL "):
